@@ -94,7 +94,10 @@ Calibration (unchanged tree)
   (isna / notnull), because after an outer merge a bool column holds NaN whatever the meta says; two-level and repeated
   column labels are not consumed and a column is never requested twice (dask cannot concatenate such partitions when a
   categorical or an overlap is involved); ``map_partitions(required_columns=)`` is generated with ``meta=`` (without it the
-  rule fails on ``self.meta[...]``: TypeError - reported to the lead, not a meta matter).
+  rule fails on ``self.meta[...]``: TypeError - reported to the lead, not a meta matter); ``R[mask(R)].index`` is not
+  generated after merge / shuffle / groupby programs (``Index(Filter)`` becomes ``Index(R)[mask(R')]``, two copies paired by
+  position: run-dependent where the row order of R is unspecified); ``set_index`` is not generated on an integer column
+  label (TypeError in SetIndex._simplify_up).  See /verif/findings_proposed/C42.md, round 2, for the side findings.
 * user functions (C36 map / apply) get a COMPLETE meta (empty pandas Series carrying the input's index): the documented
   ``(name, dtype)`` tuple cannot describe the index, so an index-name disagreement would be the user's meta, not dask's.
 * ``DataFrame.pct_change`` does not exist in dask and is not generated; rolling programs require known divisions
